@@ -127,7 +127,10 @@ def problem(pid):
            or not all(isinstance(a, str) for a in pp.action_universe())) and tries < 5000:
         pp = GP.random_pomdp(random.Random(f"C13-pomdp-{_VS}-{pid}-{tries}"), special=None)
         tries += 1
-    out = dict(sp=sp, mdp=Bd.build(sp, "subclass"), pp=pp, pomdp=Bd.build_pomdp(pp))
+    # the problem hands out PERSISTENT list objects from actions(s) (as QuickMDP(actions=[...]) does): a component
+    # that shuffles them in place changes the problem for every later run on the same object
+    mdp_obj = Bd.PersistentActionsMDP(sp)
+    out = dict(sp=sp, mdp=mdp_obj, pp=pp, pomdp=Bd.build_pomdp(pp))
     # digraph with string nodes for the searches
     gr = random.Random(f"C13-graph-{_VS}-{pid}")
     nodes = ["n%d" % i for i in range(8)]
@@ -200,6 +203,19 @@ def run_component(name, pid, seed):
         out = {}
         for s in starts[:2]:
             out[s] = dict(semi.next_state_transit_time_reward_dist(s, opt).items())
+        # two UNNAMED options in one semi-MDP: what a query returns must not depend on which queries ran before it
+        if len(sub) >= 1 and len(starts) >= 2:
+            mk = lambda goal: PlanToSubgoalOption(mdp=mdp, initial_states=list(sp.states), subgoals=list(goal),
+                                                  planner=ValueIteration(max_iterations=500), max_steps=400)
+            oa, ob = mk(sub), mk(sub + starts[-1:])
+            used = SemiMarkovDecisionProcess(mdp=mdp, options=[oa, ob], n_option_simulations=4, seed=seed)
+            fresh = SemiMarkovDecisionProcess(mdp=mdp, options=[oa, ob], n_option_simulations=4, seed=seed)
+            s0 = starts[0]
+            used.next_state_transit_time_reward_dist(s0, oa)
+            d_used = dict(used.next_state_transit_time_reward_dist(s0, ob).items())
+            d_fresh = dict(fresh.next_state_transit_time_reward_dist(s0, ob).items())
+            out["second-option"] = d_fresh
+            out["__order_independent__"] = (digest(d_used) == digest(d_fresh))
         return out
     if name == "implicit":
         from msdm.core.distributions import ImplicitDistribution
@@ -268,6 +284,16 @@ def run_case(case, rng):
         case.count("sentinel_checks")
         if res is case.FAIL:
             return
+        if isinstance(res, dict) and res.get("__order_independent__") is False:
+            case.fail("result-depends-on-earlier-queries-on-the-same-object",
+                      f"{comp}({pid}, seed={seed}): a query answered differently on a used and on a fresh semi-MDP", **facts)
+        m_ = problem(pid)["mdp"]
+        now = {s_: tuple(v) for s_, v in m_.action_lists.items()}
+        if now != m_.action_snapshot:
+            case.fail("component-mutated-the-problem's-own-action-lists",
+                      f"{comp}({pid}, seed={seed}): mdp.actions(s) changed after the call", **facts)
+            for s_, v in m_.action_snapshot.items():
+                m_.action_lists[s_][:] = list(v)
         case.check(before == after, "global-generator-state-disturbed",
                    f"{comp}({pid}, seed={seed}): global random/numpy/torch state changed during the call", **facts)
         digests.append(digest(res))
